@@ -68,6 +68,9 @@ pub open spec fn to_sync(ops: Seq<Operation>) -> Seq<SyncOp>
 }
 
 // ---- A6: the wire encodings (serde_json, flate2) are inverse pairs ----------------------------------------
+pub mod enc {
+use vstd::prelude::*;
+use super::{SyncOp, State};
 /// the operations a history segment decodes to
 pub uninterp spec fn decode(seg: Seq<u8>) -> Seq<SyncOp>;
 /// whether a byte string is a history segment in the documented format
@@ -75,3 +78,5 @@ pub uninterp spec fn decodable(seg: Seq<u8>) -> bool;
 /// the task set a snapshot decodes to
 pub uninterp spec fn snap_decode(b: Seq<u8>) -> State;
 pub uninterp spec fn snap_decodable(b: Seq<u8>) -> bool;
+}
+pub use enc::{decode, decodable, snap_decode, snap_decodable};
